@@ -607,7 +607,7 @@ class EngineRuns:
 
 def eval_model(cases, tag):
     return coq_eval(HEADER, [f"run_ascript {G.inputs_coq({n: d for n, d in c['dss'].items()})} {coq_of(c['stmts'])} \"DS_r\"" for c in cases], tag,
-                    shard=max(60, min(400, -(-len(cases) // 5))))
+                    shard=max(60, min(200, -(-len(cases) // 5))), timeout=3600)
 
 
 def _num(v) -> Optional[Fraction]:
